@@ -83,8 +83,10 @@ fn run_one(i: usize, b: &Value, unit: u64) -> anyhow::Result<Value> {
                     node.kill();
                     return Ok(mismatch(i, k, "batch result", s["res"].clone(), r));
                 }
-                for e in s["entries"].as_array().unwrap() {
-                    live.push(e.clone());
+                if s["res"] == "ok" {
+                    for e in s["entries"].as_array().unwrap() {
+                        live.push(e.clone());
+                    }
                 }
             }
             "truncate" => {
